@@ -1,6 +1,7 @@
 package sim
 
 import (
+	"os"
 	"encoding/json"
 	"fmt"
 	"io"
@@ -238,6 +239,15 @@ func (s *Sim) next(draining bool) (Decision, bool) {
 	runs := s.enabledRun()
 	dlvs := s.tr.deliverable()
 	pend := s.tr.pending()
+	if os.Getenv("SIM_DEBUG_NEXT") != "" && s.traceEnd > 0 {
+		var ps []string
+		for _, r := range pend {
+			ps = append(ps, r.ID)
+		}
+		f, _ := os.OpenFile(fmt.Sprintf("/tmp/next.%d.log", os.Getpid()), os.O_CREATE|os.O_WRONLY|os.O_APPEND, 0o644)
+		fmt.Fprintf(f, "%d runs=%v dlvs=%v pend=%v\n", s.Step, runs, dlvs, ps)
+		f.Close()
+	}
 	w := make([]float64, nCats)
 	if len(runs) > 0 {
 		w[catRun] = p.W["run"]
